@@ -1,6 +1,6 @@
 """probe: run a timed scenario against the real PortProtocol/ProtocolContext on VLoop"""
 import asyncio, logging, sys, datetime as _dt, gc
-sys.path.insert(0,'/verif/design_probes')
+sys.path.insert(0, __import__('os').path.dirname(__file__))
 logging.disable(logging.CRITICAL)
 from vloop import VLoop, VLoopLIFO
 from ramses_tx.protocol import PortProtocol
